@@ -339,6 +339,22 @@ def me9_one_metrics_object(ctx, rep):
     k = stmt["rv"]["fields"].index(A.f_metrics)
     mt = bp.operand_term(stmt["rv"]["ops"][k], bb, si)
     fresh = mt[0] == "wrap" and mt[2][0] == "call" and mt[2][1][0] == b.path
+    if not fresh and mt[0] == "call" and mt[1][0] == b.path:
+        # a crate-local constructor (`CountMetrics::named(&name)`, `CountMetrics::new()`) that
+        # returns a freshly wrapped value on its only path
+        from mirq.program import Site
+        cur, t_ = b, mt
+        for _ in range(4):
+            if t_[0] != "call" or t_[1][0] != cur.path:
+                break
+            cb_ = ctx.prog.callee_body(Site(cur, t_[1][1], cur.blocks[t_[1][1]]["term"]))
+            if cb_ is None or len(ctx.prog.cfg(cb_).exits) != 1:
+                break
+            cur = cb_
+            t_ = strip_clone(ctx.prog.bp(cb_).local_term(0, ctx.prog.cfg(cb_).exits[0], "term")) if False else ctx.prog.bp(cb_).local_term(0, ctx.prog.cfg(cb_).exits[0], "term")
+            if t_[0] == "wrap" and t_[2][0] == "call" and t_[2][1][0] == cur.path:
+                fresh = True
+                break
     rep.check(fresh, R, "metrics-created-per-store", ctx.where(b, bb, si), "store.metrics := %s created in the constructor" % term_str(mt), "store.metrics := %s" % term_str(mt))
     # every statically resolved metrics call lands in the counting implementation itself: a
     # forwarding / blanket impl (`impl Metrics for Arc<M>`) that method probing finds first can
@@ -353,7 +369,23 @@ def me9_one_metrics_object(ctx, rep):
         impls.setdefault(r_.get("impl_adt") or r_.get("path") or "?", []).append(s_)
     if impls:
         main = max(impls, key=lambda k_: len(impls[k_]))
-        stray = sorted(k_ for k_ in impls if k_ != main)
+
+        def forwards(site):
+            """the resolved callee is a forwarding method: it calls the same trait method on
+            something else (`(**self).action_received(..)`) on every returning path"""
+            cb_ = ctx.prog.callee_body(site)
+            if cb_ is None:
+                return False
+            m_ = A.metric_call(site)
+            ok_ = False
+            for p_ in ctx.paths(cb_).paths:
+                if p_.end != "return":
+                    continue
+                if not any(e.site is not None and A.metric_call(e.site) == m_ for e in p_.calls()):
+                    return False
+                ok_ = True
+            return ok_
+        stray = sorted(k_ for k_ in impls if k_ != main and not all(forwards(x) for x in impls[k_]))
         rep.check(not stray, R, "metric-calls-resolve-to-the-counting-impl", impls[stray[0]][0].where if stray else "", "all %d statically resolved metrics calls resolve to %s" % (sum(len(v) for v in impls.values()), main),
                   "metrics calls resolve to %s besides %s: a counter can end up on a trait default / forwarding impl" % (stray, main))
     cb, hits, _t = _dispatch_channel_site(ctx)
